@@ -16,7 +16,9 @@ CONSTANTS Thr,            \* thread ids
           ProcScope,      \* "thread" : one processor per thread (thread_local)   | "global" : one shared
           DtorLocked,     \* TRUE iff the destructor takes the planner mutex around plan destruction
           UsesPlanner,    \* TRUE for the FFTW back-end
-          DtorFrees       \* "all" : the destructor releases every allocation of the constructor | "partial" (spqlios as pinned: 1 of 4)
+          DtorFrees,      \* "all" : the destructor releases every allocation of the constructor | "partial" (spqlios as pinned: 1 of 4)
+          TableScope,     \* "proc" : every processor owns its read-only twiddle tables | "firstowner" : tables published once and freed by the processor that built them
+          TempScope       \* "call" : evaluation temporaries (decomposition, FFT images, accumulator copy, test vector) are allocated per call | "static" : one set shared by all callers
 VARIABLES pc,             \* pc[t]
           left,           \* transforms still to do
           proc,           \* proc[p] \in {"none","live","dead"}  for processor ids p
@@ -24,51 +26,61 @@ VARIABLES pc,             \* pc[t]
           mutex,          \* holder of the planner mutex or "none"
           inplanner,      \* set of threads currently inside an FFTW planner routine
           result,         \* result[t] = sequence of "ok"/"corrupt" per completed transform
-          heap            \* heap[p] = number of live allocations made by processor p's constructor
-vars == <<pc, left, proc, buf, mutex, inplanner, result, heap>>
+          heap,           \* heap[p] = number of live allocations made by processor p's constructor
+          tab,            \* shared tables (TableScope = "firstowner"): [owner, state \in {"none","live","freed"}]
+          tmp,            \* tmp[x] = tag of the (thread,call) whose data is in the evaluation temporaries x
+          uaf             \* TRUE once a transform has read tables that were already freed
+vars == <<pc, left, proc, buf, mutex, inplanner, result, heap, tab, tmp, uaf>>
 NAlloc == 4
 P(t) == IF ProcScope = "thread" THEN t ELSE "shared"
 Procs == IF ProcScope = "thread" THEN Thr ELSE {"shared"}
+T(t) == IF TempScope = "call" THEN t ELSE "static"
+Temps == IF TempScope = "call" THEN Thr ELSE {"static"}
+Publish(t) == IF TableScope = "firstowner" /\ tab.state = "none" THEN [owner |-> t, state |-> "live"] ELSE tab
+Unpublish(t) == IF TableScope = "firstowner" /\ tab.owner = t /\ tab.state = "live" THEN [tab EXCEPT !.state = "freed"] ELSE tab
 Init == /\ pc = [t \in Thr |-> "start"] /\ left = [t \in Thr |-> Calls]
         /\ proc = [p \in Procs |-> "none"] /\ buf = [p \in Procs |-> <<"free", 0>>]
         /\ mutex = "none" /\ inplanner = {} /\ result = [t \in Thr |-> <<>>] /\ heap = [p \in Procs |-> 0]
+        /\ tab = [owner |-> "none", state |-> "none"] /\ tmp = [x \in Temps |-> <<"free", 0>>] /\ uaf = FALSE
 \* ---- construction on first use (thread_local dynamic initialisation) ----
 CtorLock(t)   == pc[t] = "start" /\ proc[P(t)] = "none" /\ UsesPlanner /\ mutex = "none"
-                 /\ mutex' = t /\ pc' = [pc EXCEPT ![t] = "plan"] /\ UNCHANGED <<left,proc,buf,inplanner,result,heap>>
+                 /\ mutex' = t /\ pc' = [pc EXCEPT ![t] = "plan"] /\ UNCHANGED <<left,proc,buf,inplanner,result,heap,tab,tmp,uaf>>
 CtorPlanIn(t) == pc[t] = "plan" /\ inplanner' = inplanner \cup {t} /\ pc' = [pc EXCEPT ![t] = "plan2"]
-                 /\ UNCHANGED <<left,proc,buf,mutex,result,heap>>
+                 /\ UNCHANGED <<left,proc,buf,mutex,result,heap,tab,tmp,uaf>>
 CtorPlanOut(t)== pc[t] = "plan2" /\ inplanner' = inplanner \ {t} /\ mutex' = "none"
-                 /\ proc' = [proc EXCEPT ![P(t)] = "live"] /\ pc' = [pc EXCEPT ![t] = "idle"] /\ heap' = [heap EXCEPT ![P(t)] = NAlloc]
-                 /\ UNCHANGED <<left,buf,result>>
+                 /\ proc' = [proc EXCEPT ![P(t)] = "live"] /\ pc' = [pc EXCEPT ![t] = "idle"] /\ heap' = [heap EXCEPT ![P(t)] = NAlloc] /\ tab' = Publish(t)
+                 /\ UNCHANGED <<left,buf,result,tmp,uaf>>
 CtorPlain(t)  == pc[t] = "start" /\ proc[P(t)] = "none" /\ ~UsesPlanner
-                 /\ proc' = [proc EXCEPT ![P(t)] = "live"] /\ pc' = [pc EXCEPT ![t] = "idle"] /\ heap' = [heap EXCEPT ![P(t)] = NAlloc]
-                 /\ UNCHANGED <<left,buf,mutex,inplanner,result>>
+                 /\ proc' = [proc EXCEPT ![P(t)] = "live"] /\ pc' = [pc EXCEPT ![t] = "idle"] /\ heap' = [heap EXCEPT ![P(t)] = NAlloc] /\ tab' = Publish(t)
+                 /\ UNCHANGED <<left,buf,mutex,inplanner,result,tmp,uaf>>
 CtorSkip(t)   == pc[t] = "start" /\ proc[P(t)] = "live" /\ pc' = [pc EXCEPT ![t] = "idle"]
-                 /\ UNCHANGED <<left,proc,buf,mutex,inplanner,result,heap>>
+                 /\ UNCHANGED <<left,proc,buf,mutex,inplanner,result,heap,tab,tmp,uaf>>
 \* ---- one transform = load scratch ; run ; read scratch -------------------
 Begin(t) == pc[t] = "idle" /\ left[t] > 0 /\ proc[P(t)] = "live"
-            /\ buf' = [buf EXCEPT ![P(t)] = <<t, left[t]>>] /\ pc' = [pc EXCEPT ![t] = "loaded"]
-            /\ UNCHANGED <<left,proc,mutex,inplanner,result,heap>>
-Run(t)   == pc[t] = "loaded" /\ pc' = [pc EXCEPT ![t] = "ran"] /\ UNCHANGED <<left,proc,buf,mutex,inplanner,result,heap>>
+            /\ buf' = [buf EXCEPT ![P(t)] = <<t, left[t]>>] /\ tmp' = [tmp EXCEPT ![T(t)] = <<t, left[t]>>] /\ pc' = [pc EXCEPT ![t] = "loaded"]
+            /\ UNCHANGED <<left,proc,mutex,inplanner,result,heap,tab,uaf>>
+Run(t)   == pc[t] = "loaded" /\ pc' = [pc EXCEPT ![t] = "ran"] /\ uaf' = (uaf \/ (TableScope = "firstowner" /\ tab.state = "freed")) /\ UNCHANGED <<left,proc,buf,mutex,inplanner,result,heap,tab,tmp>>
 End(t)   == pc[t] = "ran"
-            /\ result' = [result EXCEPT ![t] = Append(@, IF buf[P(t)] = <<t, left[t]>> THEN "ok" ELSE "corrupt")]
+            /\ result' = [result EXCEPT ![t] = Append(@, IF buf[P(t)] = <<t, left[t]>> /\ tmp[T(t)] = <<t, left[t]>> THEN "ok" ELSE "corrupt")]
+            /\ tmp' = [tmp EXCEPT ![T(t)] = IF @ = <<t, left[t]>> THEN <<"free", 0>> ELSE @]
             /\ buf' = [buf EXCEPT ![P(t)] = IF @ = <<t, left[t]>> THEN <<"free", 0>> ELSE @]
             /\ left' = [left EXCEPT ![t] = @ - 1] /\ pc' = [pc EXCEPT ![t] = "idle"]
-            /\ UNCHANGED <<proc,mutex,inplanner,heap>>
+            /\ UNCHANGED <<proc,mutex,inplanner,heap,tab,uaf>>
 \* ---- thread exit: destructor of the thread's processor --------------------
 ExitLock(t)  == pc[t] = "idle" /\ left[t] = 0 /\ ProcScope = "thread" /\ UsesPlanner /\ DtorLocked /\ mutex = "none"
-                /\ mutex' = t /\ pc' = [pc EXCEPT ![t] = "dtor"] /\ UNCHANGED <<left,proc,buf,inplanner,result,heap>>
+                /\ mutex' = t /\ pc' = [pc EXCEPT ![t] = "dtor"] /\ UNCHANGED <<left,proc,buf,inplanner,result,heap,tab,tmp,uaf>>
 ExitNoLock(t)== pc[t] = "idle" /\ left[t] = 0 /\ ProcScope = "thread" /\ UsesPlanner /\ ~DtorLocked
-                /\ pc' = [pc EXCEPT ![t] = "dtor"] /\ UNCHANGED <<left,proc,buf,mutex,inplanner,result,heap>>
+                /\ pc' = [pc EXCEPT ![t] = "dtor"] /\ UNCHANGED <<left,proc,buf,mutex,inplanner,result,heap,tab,tmp,uaf>>
 DtorIn(t)    == pc[t] = "dtor" /\ inplanner' = inplanner \cup {t} /\ pc' = [pc EXCEPT ![t] = "dtor2"]
-                /\ UNCHANGED <<left,proc,buf,mutex,result,heap>>
+                /\ UNCHANGED <<left,proc,buf,mutex,result,heap,tab,tmp,uaf>>
 DtorOut(t)   == pc[t] = "dtor2" /\ inplanner' = inplanner \ {t} /\ mutex' = (IF mutex = t THEN "none" ELSE mutex)
-                /\ proc' = [proc EXCEPT ![P(t)] = "dead"] /\ pc' = [pc EXCEPT ![t] = "gone"] /\ heap' = [heap EXCEPT ![P(t)] = (IF DtorFrees = "all" THEN 0 ELSE NAlloc - 1)]
-                /\ UNCHANGED <<left,buf,result>>
+                /\ proc' = [proc EXCEPT ![P(t)] = "dead"] /\ pc' = [pc EXCEPT ![t] = "gone"] /\ heap' = [heap EXCEPT ![P(t)] = (IF DtorFrees = "all" THEN 0 ELSE NAlloc - 1)] /\ tab' = Unpublish(t)
+                /\ UNCHANGED <<left,buf,result,tmp,uaf>>
 ExitPlain(t) == pc[t] = "idle" /\ left[t] = 0 /\ (~UsesPlanner \/ ProcScope # "thread")
                 /\ proc' = [proc EXCEPT ![P(t)] = IF ProcScope = "thread" THEN "dead" ELSE @]
                 /\ heap' = [heap EXCEPT ![P(t)] = IF ProcScope = "thread" THEN (IF DtorFrees = "all" THEN 0 ELSE NAlloc - 1) ELSE @]
-                /\ pc' = [pc EXCEPT ![t] = "gone"] /\ UNCHANGED <<left,buf,mutex,inplanner,result>>
+                /\ tab' = (IF ProcScope = "thread" THEN Unpublish(t) ELSE tab)
+                /\ pc' = [pc EXCEPT ![t] = "gone"] /\ UNCHANGED <<left,buf,mutex,inplanner,result,tmp,uaf>>
 Next == \E t \in Thr : CtorLock(t) \/ CtorPlanIn(t) \/ CtorPlanOut(t) \/ CtorPlain(t) \/ CtorSkip(t)
                     \/ Begin(t) \/ Run(t) \/ End(t)
                     \/ ExitLock(t) \/ ExitNoLock(t) \/ DtorIn(t) \/ DtorOut(t) \/ ExitPlain(t)
@@ -79,5 +91,7 @@ PlannerExclusive == Cardinality(inplanner) <= 1
 ScratchPrivate   == \A t1, t2 \in Thr : (t1 # t2 /\ pc[t1] \in {"loaded", "ran"} /\ pc[t2] \in {"loaded", "ran"}) => P(t1) # P(t2)
 \* per-thread FFT state is released when the thread exits
 ReleasedOnExit   == \A t \in Thr : (pc[t] = "gone" /\ ProcScope = "thread") => heap[P(t)] = 0
+\* no transform reads twiddle tables that were freed by another thread's exit
+TablesAlive      == ~uaf
 AllDone == <>(\A t \in Thr : pc[t] = "gone")
 =============================================================================
